@@ -23,6 +23,7 @@ import (
 
 	interp "github.com/compose-spec/compose-go/v2/interpolation"
 	"github.com/compose-spec/compose-go/v2/tree"
+	"github.com/compose-spec/compose-go/v2/utils"
 	"github.com/sirupsen/logrus"
 )
 
@@ -85,75 +86,26 @@ func servicePath(parts ...string) tree.Path {
 	return iPath(append([]string{"services", tree.PathMatchAll}, parts...)...)
 }
 
-// parseYAMLInt reads an integer the way yaml.v3 resolves a plain scalar to !!int, so that a value supplied
-// through a variable is the number the same text denotes when written as a YAML literal: underscores are
-// ignored, 0x / 0o / 0b select the base and a leading 0 means octal (`mode: 0440`). A text that is not valid
-// octal (`08`) is a decimal number for YAML as well and is read as such.
-func parseYAMLInt(value string) (int64, bool) {
-	plain := strings.ReplaceAll(value, "_", "")
-	if i, err := strconv.ParseInt(plain, 0, 64); err == nil {
-		return i, true
-	}
-	// sign after the prefix, as accepted by yaml.v3
-	switch {
-	case strings.HasPrefix(plain, "0b"):
-		if i, err := strconv.ParseInt(plain[2:], 2, 64); err == nil {
-			return i, true
-		}
-	case strings.HasPrefix(plain, "-0b"):
-		if i, err := strconv.ParseInt("-"+plain[3:], 2, 64); err == nil {
-			return i, true
-		}
-	case strings.HasPrefix(plain, "0o"):
-		if i, err := strconv.ParseInt(plain[2:], 8, 64); err == nil {
-			return i, true
-		}
-	case strings.HasPrefix(plain, "-0o"):
-		if i, err := strconv.ParseInt("-"+plain[3:], 8, 64); err == nil {
-			return i, true
-		}
-	}
-	if i, err := strconv.ParseInt(plain, 10, 64); err == nil {
-		return i, true
-	}
-	return 0, false
-}
-
-// parseYAMLFloat reads a number the way yaml.v3 resolves a plain scalar to !!int or !!float.
-func parseYAMLFloat(value string, bitSize int) (float64, error) {
-	plain := strings.ReplaceAll(value, "_", "")
-	if i, err := strconv.ParseInt(plain, 0, 64); err == nil {
-		return float64(i), nil
-	}
-	if u, err := strconv.ParseUint(plain, 0, 64); err == nil {
-		return float64(u), nil
-	}
-	if f, err := strconv.ParseFloat(plain, bitSize); err == nil {
-		return f, nil
-	}
-	return strconv.ParseFloat(value, bitSize)
-}
-
 func toInt(value string) (interface{}, error) {
-	if i, ok := parseYAMLInt(value); ok && int64(int(i)) == i {
+	if i, ok := utils.ParseYAMLInt(value); ok && int64(int(i)) == i {
 		return int(i), nil
 	}
 	return strconv.Atoi(value)
 }
 
 func toInt64(value string) (interface{}, error) {
-	if i, ok := parseYAMLInt(value); ok {
+	if i, ok := utils.ParseYAMLInt(value); ok {
 		return i, nil
 	}
 	return strconv.ParseInt(value, 10, 64)
 }
 
 func toFloat(value string) (interface{}, error) {
-	return parseYAMLFloat(value, 64)
+	return utils.ParseYAMLFloat(value, 64)
 }
 
 func toFloat32(value string) (interface{}, error) {
-	f, err := parseYAMLFloat(value, 32)
+	f, err := utils.ParseYAMLFloat(value, 32)
 	if err != nil {
 		return nil, err
 	}
